@@ -281,7 +281,7 @@ func TestVerifC12(t *testing.T) {
 	run.Count("reference_selftest_published_vectors_ok", 4)
 
 	const alnum = "0123456789abcdefghijklmnopqrstuvwxyz"
-	n := run.N(20000, 400000)
+	n := run.N(16000, 320000)
 	run.Cases("sets", n, func(i int, rng *verifkit.Rand) {
 		// ---------------- generate
 		c := &c12Case{Load: rng.PickStr("json", "roots"), ReadVia: rng.PickStr("Get", "Get", "Ask"), Change: "none"}
